@@ -15,7 +15,7 @@ Extraction "model.ml"
   ImplMerge.api_merge ImplMerge.api_create
   Domain.den_op Domain.in_domain_C01 Domain.root_container Domain.dialect_of Domain.c14_path_ok
   Domain.canonical_spelling Domain.pointer_ok Domain.copies_fit
-  ImplV4.api_apply4 ImplV4.api_decode4 ImplV4.api_merge4 ImplV4.api_equal4 ImplV4.mkOpts4
+  ImplV4.api_apply4 ImplV4.api_decode4 ImplV4.api_merge4 ImplV4.api_equal4 ImplV4.mkOpts4 ImplV4.api_no_null_copy4
   Cli.cli_run
   Scan.valid_gen Scan.compact_go Scan.indent_go
   ScannerGen.scanner_reset ScannerGen.step_fn ScannerGen.scanner_eof ScannerGen.mkScanner.
